@@ -104,8 +104,10 @@ def eval_case(case):
             k = next((i for i, (u, v) in enumerate(zip(got.split(','), a.split(','))) if u != v), -1)
             broken.append((f'path-tie: s_to_c model ({p}) = real {type(ws).__name__}.s_to_c, raw cells',
                            f'first differing token #{k}; ppi={ppi} sims={sims} block={bx}x{by} c_len={c_len} real={got[:300]} model={a[:300]}'))
-    # hypotheses of C06.s_to_c_paths_agree on the real tables: every state-element row has (P)PI memory; flags agree
-    rows_ok = all(ppi[y] >= 0 for y in range(n_io, s_len))
+    # hypotheses of C06.s_to_c_paths_agree on the real tables: flags agree (rows without (P)PI memory are skipped by both paths
+    # since the repair D31; `rows-unallocated` is kept as a coverage tag only)
+    rows_ok = True
+    tags.append('tie-stoc-rows:' + ('all-allocated' if all(ppi[y] >= 0 for y in range(n_io, s_len)) else 'orphan-state-element'))
     used = [y for y in range(s_len) if ppi[y] >= 0]
     flags_ok = all((float(s0[k, y, x]) != 0) == (float(s0[k, y, x]) >= 0.5) for k in (0, 2) for y in used for x in range(sims))
     tags.append('tie-stoc-hyp:' + ('hold' if rows_ok and flags_ok else 'rows-unallocated' if not rows_ok else 'flags-differ'))
@@ -193,8 +195,9 @@ def corr(ck, n):
         w = f'witness raised {type(ex).__name__}: {ex}'[:200]
     ck.hist['path-finding:cpu-s_to_c-through-c_locs=-1:' + ('present' if w else 'absent')] += 1
     if w:
-        ck.notes.append('FINDING CANDIDATE (CPU vs GPU path; the hypothesis stateRowsAllocatedB of C06.s_to_c_paths_agree fails; recorded as a note, '
-                        'not as a violation: the random circuits of the C06 oracle always connect an output of every state element): ' + w)
+        # D31 (repaired by "fix: state elements without connected outputs are not assigned in s_to_c"): if it comes back it is a violation
+        ck.violation('orphan-state-element', 'CPU and GPU-kernel path differ: s_to_c stores through c_locs = -1 of a state element without outputs',
+                     {'clause': 'path-witness'}, {'difference': w}, {'difference': None})
     for _ in range(n):
         cs = make_case(ck.rng)
         try:
